@@ -19,6 +19,9 @@ func init() {
 	parts["kernel-enum"] = func(seed uint64, tier string, replay []string) *lib.Result {
 		return corrKernel(seed, tier, replay, "C14", fsGenOpts{enum: true, symlinks: true, kernel: true}, 14)
 	}
+	parts["kernel-perm"] = func(seed uint64, tier string, replay []string) *lib.Result {
+		return corrKernel(seed, tier, replay, "C03", fsGenOpts{users: true, symlinks: true, kernel: true}, 15)
+	}
 	parts["kernel-links"] = func(seed uint64, tier string, replay []string) *lib.Result {
 		return corrKernel(seed, tier, replay, "C04", fsGenOpts{symlinks: true, kernel: true}, 13)
 	}
@@ -38,6 +41,9 @@ func normRes(s string) string {
 		var out []string
 		for _, e := range strings.Split(f[2], ";") {
 			p := strings.Split(e, ":")
+			if len(p) == 2 && p[1] == "?" {
+				p = []string{p[0], "?"}
+			}
 			if len(p) >= 8 {
 				if f[1] == "i" {
 					p[0] = "_"
@@ -283,6 +289,18 @@ func kernelClass(l lib.History, a, b []string, d int) string {
 		if pop == "file" && len(pf) > 4 {
 			pop = "file." + pf[4]
 		}
+		for _, pl := range l[:d] {
+			pf2 := strings.Fields(pl)
+			if len(pf2) >= 4 && pf2[2] == "setuser" {
+				if pf2[3] != "0" {
+					if !strings.HasSuffix(pop, "[u]") {
+						pop += "[u]"
+					}
+				} else {
+					pop = strings.TrimSuffix(pop, "[u]")
+				}
+			}
+		}
 		return "kernel.tree-after-" + pop
 	}
 	if op == "file" && len(f) > 4 {
@@ -305,6 +323,19 @@ func kernelClass(l lib.History, a, b []string, d int) string {
 					}
 				}
 				n++
+			}
+		}
+	}
+	// acting as a non-administrator?
+	for _, pl := range l[:d] {
+		pf := strings.Fields(pl)
+		if len(pf) >= 4 && pf[2] == "setuser" {
+			if pf[3] != "0" {
+				if !strings.HasSuffix(sit, "[u]") {
+					sit += "[u]"
+				}
+			} else {
+				sit = strings.TrimSuffix(sit, "[u]")
 			}
 		}
 	}
